@@ -663,4 +663,99 @@ theorem interpolate_length (x y g : List K) (m : Process.Method) (ms : String) (
   | cubic => exact ⟨_, rfl, hext (Or.inl rfl)⟩
   | spline => exact ⟨_, rfl, hext (Or.inr rfl)⟩
 
+/-! ## Fixed points that are not samples of `x` -/
+
+/-- if some value of `v` is not a sample of the strictly increasing `x`, fewer indices of `x` carry
+a value of `v` than `v` has entries -/
+theorem whereIsin_length_lt (x v : List K) (hx : x.Pairwise (· < ·)) (a : K) (ha : a ∈ v)
+    (hax : a ∉ x) : (whereIsin x v).length < v.length := by
+  have hnd : ((whereIsin x v).map (fnOf x)).Nodup := by
+    apply List.Nodup.map_on
+    · intro i hi j hj hij
+      have hi' := whereIsin_lt x v i hi
+      have hj' := whereIsin_lt x v j hj
+      rw [fnOf_of_lt x i hi', fnOf_of_lt x j hj'] at hij
+      exact getElem_inj_of_pairwise_lt x hx i j hi' hj' hij
+    · exact (whereIsin_sorted x v).imp (fun h => ne_of_lt h)
+  have hsub : (whereIsin x v).map (fnOf x) ⊆ v.erase a := by
+    intro b hb
+    obtain ⟨i, hi, rfl⟩ := List.mem_map.mp hb
+    obtain ⟨hi', hm⟩ := (mem_whereIsin x v i).mp hi
+    rw [fnOf_of_lt x i hi']
+    have hne : x[i] ≠ a := fun e => hax (e ▸ List.getElem_mem hi')
+    exact (List.mem_erase_of_ne hne).mpr hm
+  have h1 := (List.subperm_of_subset hnd hsub).length_le
+  rw [List.length_map, List.length_erase_of_mem ha] at h1
+  have : 0 < v.length := List.length_pos_of_mem ha
+  omega
+
+/-- the final length check of the fixed-point preparation fails as soon as the two look-ups
+succeed -/
+theorem fixedPoints_not_samples_of_search (x xref v : List K) (st : String) (ri : List ℤ)
+    (inRef : List K) (hx : x.Pairwise (· < ·)) (hv : v.length ≤ x.length) (a : K) (ha : a ∈ v)
+    (hax : a ∉ x) (hs : Search.find "closest" true xref (uniqueK v) = .ok ri)
+    (ht : takeK xref ri = .ok inRef) :
+    fixedPoints x xref (some v) none st = .error .valueError := by
+  have hlt := whereIsin_length_lt x (uniqueK v) hx a ((mem_uniqueK a v).mpr ha) hax
+  unfold fixedPoints
+  simp only [not_lt.mpr hv, hs, ht, if_false, bind, Except.bind, pure, Except.pure, throw, throwThe,
+    MonadExceptOf.throw]
+  rw [if_pos (ne_of_lt hlt)]
+
+theorem dedupAdj_sublist {α : Type} [DecidableEq α] : ∀ l : List α, (dedupAdj l).Sublist l
+  | [] => by simp [dedupAdj]
+  | [b] => by simp [dedupAdj]
+  | b :: c :: rest => by
+    have ih := dedupAdj_sublist (c :: rest)
+    unfold dedupAdj
+    split
+    · exact ih.trans (List.sublist_cons_self _ _)
+    · exact ih.cons_cons b
+
+/-- `np.unique` returns a sorted array -/
+theorem uniqueK_sorted (l : List K) : (uniqueK l).Pairwise (· ≤ ·) := by
+  unfold uniqueK
+  apply List.Pairwise.sublist (dedupAdj_sublist _)
+  have := List.pairwise_mergeSort (le := fun a b : K => decide (a ≤ b))
+    (fun a b c hab hbc => by simp only [decide_eq_true_eq] at *; exact le_trans hab hbc)
+    (fun a b => by simp only [Bool.or_eq_true, decide_eq_true_eq]; exact le_total a b) l
+  exact this.imp (fun h => by simpa using h)
+
+theorem takeK_ok (a : List K) : ∀ (idx : List ℤ), (∀ i ∈ idx, 0 ≤ i ∧ i.toNat < a.length) →
+    ∃ r, takeK a idx = .ok r := by
+  intro idx
+  induction idx with
+  | nil => intro _; exact ⟨[], rfl⟩
+  | cons i is ih =>
+    intro h
+    obtain ⟨h0, h1⟩ := h i List.mem_cons_self
+    obtain ⟨r, hr⟩ := ih (fun j hj => h j (List.mem_cons_of_mem _ hj))
+    refine ⟨a[i.toNat] :: r, ?_⟩
+    simp only [takeK, if_neg (not_lt.mpr h0), List.getElem?_eq_getElem h1, hr]
+    rfl
+
+/-- the nearest-element search and the take that follow `np.unique` succeed on a non-empty
+strictly increasing reference -/
+theorem closest_take_ok (xref q : List K) (hxr : xref.Pairwise (· < ·)) (hxr0 : xref ≠ [])
+    (hq : q.Pairwise (· ≤ ·)) (hq0 : q ≠ []) :
+    ∃ ri inRef, Search.find "closest" true xref q = .ok ri ∧ takeK xref ri = .ok inRef := by
+  obtain ⟨r, hr, hlen, hspec⟩ := C10.findClosest_spec xref q hxr hq hxr0 hq0
+  have hidx : ∀ i ∈ r, 0 ≤ i ∧ i.toNat < xref.length := by
+    intro i hi
+    obtain ⟨k, hk, rfl⟩ := List.getElem_of_mem hi
+    obtain ⟨j, hj, hc⟩ := hspec k (by omega) hk
+    obtain ⟨hjl, _⟩ := hc
+    rw [hj]
+    exact ⟨Int.natCast_nonneg j, by simpa using hjl⟩
+  obtain ⟨inRef, ht⟩ := takeK_ok xref r hidx
+  exact ⟨r, inRef, by rw [C10.find_closest]; exact hr, ht⟩
+
+/-- fixed points that are not samples of `x` are rejected with `ValueError` -/
+theorem fixedPoints_not_samples (x xref v : List K) (st : String) (hx : x.Pairwise (· < ·))
+    (hxr : xref.Pairwise (· < ·)) (hxr0 : xref ≠ []) (hv : v.length ≤ x.length) (a : K)
+    (ha : a ∈ v) (hax : a ∉ x) : fixedPoints x xref (some v) none st = .error .valueError := by
+  have hq0 : uniqueK v ≠ [] := List.ne_nil_of_mem ((mem_uniqueK a v).mpr ha)
+  obtain ⟨ri, inRef, hs, ht⟩ := closest_take_ok xref (uniqueK v) hxr hxr0 (uniqueK_sorted v) hq0
+  exact fixedPoints_not_samples_of_search x xref v st ri inRef hx hv a ha hax hs ht
+
 end TWV.Weaver
